@@ -10,6 +10,8 @@ for f in sorted(glob.glob(os.path.join(V, "seeded", "*", "meta.json"))):
     for l in q.get("lines", []):
         if "violated rule:" in l: rule = l.split("violated rule:")[1].split(" detail=")[0].strip(); break
     det = "quick" if q.get("detected") else ("thorough" if t and t.get("detected") else "NOT DETECTED")
+    if det == "NOT DETECTED" and m.get("also_caught_by"):
+        a = m["also_caught_by"]; det = f"{a['property']} {a['tier']}"; rule = a["rule"]
     rows.append((name, m["property"], m.get("summary", "").replace("|", "/"), m.get("needs", "").replace("|", "/"), det, rule))
 with open(os.path.join(V, "seeded", "RESULTS.md"), "w") as f:
     f.write("# Seeded property-breaking changes and which check catches them\n\n"
